@@ -9,6 +9,7 @@ import (
 	"encoding/binary"
 	"encoding/json"
 	"fmt"
+	"regexp"
 	"strings"
 
 	"github.com/nsqio/nsq/internal/verif/vrt"
@@ -23,6 +24,8 @@ type RobustSpec struct {
 	Query  string `json:"query"`
 	Desc   string `json:"desc"`
 }
+
+var lkNameRe = regexp.MustCompile(`^[.a-zA-Z0-9_-]+(#ephemeral)?$`)
 
 var documentedLookupErrors = []string{"E_INVALID", "E_BAD_TOPIC", "E_BAD_CHANNEL", "E_BAD_BODY", "E_BAD_PROTOCOL"}
 
@@ -99,6 +102,14 @@ func RunRobust(spec RobustSpec) vx.Out {
 			bad("C15 connection not closed after end of input", "responses %q", rs)
 		}
 		bystander("after the connection")
+		// invalid names are refused: nothing that breaks the naming rules is registered
+		for k := range w.L.DB.registrationMap {
+			for _, n := range []string{k.Key, k.SubKey} {
+				if n != "" && (len(n) > 64 || !lkNameRe.MatchString(n)) {
+					bad("C15 invalid name accepted into the registry", "registration %s/%s/%s", k.Category, k.Key, k.SubKey)
+				}
+			}
+		}
 	case "http":
 		code, b := w.DoRaw(spec.Method, spec.Path, spec.Query, strings.NewReader("x"))
 		obs = fmt.Sprint(code)
